@@ -45,6 +45,9 @@ def main() -> int:
                 elif os.path.exists(source):
                     shutil.copy(source, work)
             proc = subprocess.run(["git", "apply", "--unsafe-paths", "--directory", work, os.path.join(directory, "patch.diff")], cwd=work, capture_output=True, text=True)
+            if proc.returncode != 0:
+                # /repo has moved on since the patch was written (a later fix: commit touches the same file): apply with fuzz
+                proc = subprocess.run(["patch", "-p1", "-s", "--fuzz=3", "-i", os.path.join(directory, "patch.diff")], cwd=work, capture_output=True, text=True)
             record["patch_applies"] = proc.returncode == 0
             if proc.returncode != 0:
                 record["patch_error"] = (proc.stderr + proc.stdout)[-300:]
